@@ -67,6 +67,8 @@ type hOp struct {
 	Idx    int      `json:"ix,omitempty"` // unique index value
 	During bool     `json:"du,omitempty"` // write/delrow: a cached read of the row inside the exec callback, before the DB changes
 	NoIdx  bool     `json:"ni,omitempty"` // write that keeps the index value: do not name the index key
+	In     int      `json:"in,omitempty"` // which of the case's cache instances performs the operation
+	GF     bool     `json:"gf,omitempty"` // conc: all readers start together while GETs are slow and then fail
 	Pay    int      `json:"py,omitempty"` // write: which payload (large integers, floats, strings needing escapes) the row carries
 	Keys   []string `json:"ks,omitempty"` // delcache/setcache: "p<id>" / "i<idx>"
 	D      int      `json:"d,omitempty"`  // adv: seconds
@@ -78,7 +80,31 @@ type hOp struct {
 	Filt   string   `json:"f,omitempty"`  // fault: "" p i (key class the fault applies to)
 }
 
+// hInst: the options one CachedConn is created with. An option that is not
+// passed takes the documented default (7 days / 1 minute).
+type hInst struct {
+	HasE  bool `json:"he,omitempty"`
+	E     int  `json:"e,omitempty"` // seconds
+	HasNF bool `json:"hn,omitempty"`
+	NF    int  `json:"nf,omitempty"` // seconds
+}
+
+func (i hInst) expire() int {
+	if i.HasE {
+		return i.E
+	}
+	return 7 * 24 * 3600
+}
+
+func (i hInst) nfExpire() int {
+	if i.HasNF {
+		return i.NF
+	}
+	return 60
+}
+
 type hCase struct {
+	Insts []hInst `json:"insts,omitempty"` // 1..3 connections created in this order over the same nodes (default: one with e / nfe)
 	Weights []int  `json:"w"`    // one entry per node (1..3)
 	Ctor    string `json:"ctor"` // node | conf (single node through NewNodeConn or NewConn)
 	Expire  int    `json:"e"`    // seconds
@@ -165,7 +191,8 @@ type hRun struct {
 	t    *testing.T
 	c    hCase
 	srvs []*cache.C06Srv
-	cc   sqlc.CachedConn
+	ccs  []sqlc.CachedConn
+	cur  int // instance performing the running operation
 	db   map[int]hRow
 	ver  int
 
@@ -282,13 +309,13 @@ func (r *hRun) indexQuery(idx int, v any) (any, error) {
 
 func (r *hRun) queryRow(id int) (hRow, error) {
 	var row hRow
-	err := r.cc.QueryRow(&row, r.pkey(id), func(_ sqlx.Conn, v any) error { return r.primaryQuery(id, v) })
+	err := r.ccs[r.cur].QueryRow(&row, r.pkey(id), func(_ sqlx.Conn, v any) error { return r.primaryQuery(id, v) })
 	return row, err
 }
 
 func (r *hRun) queryRowIndex(idx int) (hRow, error) {
 	var row hRow
-	err := r.cc.QueryRowIndex(&row, r.ikey(idx),
+	err := r.ccs[r.cur].QueryRowIndex(&row, r.ikey(idx),
 		func(primary any) string { return fmt.Sprintf("p%d:%v", r.c.Salt, primary) },
 		func(_ sqlx.Conn, v any) (any, error) { return r.indexQuery(idx, v) },
 		func(_ sqlx.Conn, v, primary any) error { return r.primaryQuery(r.slotOf(fmt.Sprint(primary)), v) })
@@ -331,9 +358,10 @@ func (r *hRun) absorb(fromIndexRead, background bool) (b hBatch, dels []string) 
 				}
 				b.sets++
 				k := e.Keys[0]
-				exp := r.c.Expire
+				// judged by the configuration of the instance that issued it
+				exp := r.c.Insts[r.cur].expire()
 				if e.Val == "*" {
-					exp = r.c.NFExp
+					exp = r.c.Insts[r.cur].nfExpire()
 				}
 				lo, hi := ttlBounds(exp)
 				if fromIndexRead && e.Val != "*" && strings.HasPrefix(k, "p") {
@@ -614,7 +642,7 @@ func (r *hRun) doWrite(what string, o hOp, del bool) {
 		}
 	}
 	r.markInvalidated(keys)
-	_, err := r.cc.Exec(func(_ sqlx.Conn) (sql.Result, error) {
+	_, err := r.ccs[r.cur].Exec(func(_ sqlx.Conn) (sql.Result, error) {
 		if o.During {
 			r.classes["read-during-exec"] = true
 			r.absorb(false, false) // keep the model in step with whatever Exec did before calling back
@@ -673,7 +701,7 @@ func (r *hRun) doDelCache(what string, o hOp) {
 		r.classes["skipped"] = true
 		return
 	}
-	err := r.cc.DelCache(keys...)
+	err := r.ccs[r.cur].DelCache(keys...)
 	b, _ := r.absorb(false, false)
 	if err != nil {
 		r.failf("%s: DelCache returned %v", what, err)
@@ -701,14 +729,14 @@ func (r *hRun) doSetCache(what string, o hOp) {
 				r.classes["skipped"] = true
 				continue
 			}
-			err = r.cc.SetCache(r.pkey(row.ID), row)
+			err = r.ccs[r.cur].SetCache(r.pkey(row.ID), row)
 		case 'i':
 			row, ok := r.rowByIdx(n % c06NIdx)
 			if !ok {
 				r.classes["skipped"] = true
 				continue
 			}
-			err = r.cc.SetCache(r.ikey(row.Idx), r.pkValue(row.ID))
+			err = r.ccs[r.cur].SetCache(r.ikey(row.Idx), r.pkValue(row.ID))
 		default:
 			continue
 		}
@@ -828,6 +856,28 @@ func (r *hRun) doConc(what string, o hOp) {
 	}
 	wasDirty := r.dirty[key] || (o.ViaIdx && exists && r.dirty[r.pkey(want.ID)])
 	uncached := !r.cachedAlive(key) && !r.phAlive(key)
+	gf := false
+	if o.GF {
+		// readers that start together while every GET is slow and then fails:
+		// all but one join the leader's flight and must get its error too
+		if len(o.Offs) > 4 {
+			o.Offs = o.Offs[:4]
+		}
+		gf = true
+		for _, s := range r.srvs {
+			if s.Injected()+len(o.Offs) > c06MaxInjected {
+				gf = false
+			}
+		}
+		if gf {
+			for i := range o.Offs {
+				o.Offs[i] = 0
+			}
+			for _, s := range r.srvs {
+				s.SetFault("slowget", "")
+			}
+		}
+	}
 	r.resetCalls()
 	r.mu.Lock()
 	r.maxActive = 0
@@ -858,7 +908,12 @@ func (r *hRun) doConc(what string, o hOp) {
 	r.lat = 0
 	maxActive := r.maxActive
 	r.mu.Unlock()
-	r.absorb(o.ViaIdx, false)
+	b, _ := r.absorb(o.ViaIdx, false)
+	if gf {
+		for _, s := range r.srvs {
+			s.SetFault("", "")
+		}
+	}
 	// keep the operations aligned: the whole step takes exactly one second
 	time.Sleep(time.Until(t0.Add(time.Second)))
 	kit.Wait()
@@ -884,6 +939,28 @@ func (r *hRun) doConc(what string, o hOp) {
 		if off < first+o.Lat {
 			overlap++
 		}
+	}
+	if gf {
+		r.classes["conc-get-fault"] = true
+		total := 0
+		for _, n := range r.priCalls {
+			total += n
+		}
+		for _, n := range r.idxCalls {
+			total += n
+		}
+		for i, x := range out {
+			if !isCacheErr(x.err) {
+				r.failf("%s reader %d: every GET failed with a redis error (%d GETs seen), the reader got (%+v, %v) instead of that error", what, i, len(b.getFailed), x.row, x.err)
+			}
+		}
+		if total != 0 {
+			r.failf("%s: every GET failed with a redis error and the database was queried %d time(s)", what, total)
+		}
+		if len(b.getFailed) > 0 && len(o.Offs) >= 2 {
+			r.nontrivial = true
+		}
+		return
 	}
 	if maxActive > 1 {
 		r.failf("%s: %d database queries for %s ran at the same time (%d readers)", what, maxActive, key, len(o.Offs))
@@ -923,8 +1000,17 @@ func c06HistInterp(t *testing.T, c hCase) (v kit.Verdict) {
 		seen[r.pkText(id)] = true
 	}
 	n := len(c.Weights)
-	if n < 1 || n > len(cache.C06Srvs) || c.Expire < 1 || c.NFExp < 1 {
+	if len(c.Insts) == 0 {
+		c.Insts = []hInst{{HasE: true, E: c.Expire, HasNF: true, NF: c.NFExp}}
+		r.c = c
+	}
+	if n < 1 || n > len(cache.C06Srvs) || len(c.Insts) > 3 {
 		return kit.Verdict{Excluded: true}
+	}
+	for _, in := range c.Insts {
+		if (in.HasE && in.E < 1) || (in.HasNF && in.NF < 1) {
+			return kit.Verdict{Excluded: true}
+		}
 	}
 	if cache.C06Poisoned(c.Salt) {
 		// a late command of a stalled earlier case could hit this case's keys
@@ -943,28 +1029,52 @@ func c06HistInterp(t *testing.T, c hCase) (v kit.Verdict) {
 			kit.Wait()
 		}()
 		time.Sleep(time.Duration(c.OffMs)*time.Millisecond + 500*time.Microsecond)
-		opts := []cache.Option{cache.WithExpire(time.Duration(c.Expire) * time.Second), cache.WithNotFoundExpire(time.Duration(c.NFExp) * time.Second)}
-		if n == 1 && c.Ctor == "node" {
-			r.cc = sqlc.NewNodeConn(nil, redis.New(r.srvs[0].M.Addr()), opts...)
+		// a throw-away instance with the documented defaults passed explicitly:
+		// whatever an earlier case may have left behind in process-wide state
+		// is overwritten, so cases stay independent
+		_ = sqlc.NewNodeConn(nil, redis.New(r.srvs[0].M.Addr()), cache.WithExpire(7*24*time.Hour), cache.WithNotFoundExpire(time.Minute))
+		var conf cache.Config
+		for i, w := range c.Weights {
+			conf = append(conf, cache.NodeConfig{Config: redis.Config{Host: r.srvs[i].M.Addr(), Type: redis.NodeType}, Weight: w})
+		}
+		for ii, in := range c.Insts {
+			var opts []cache.Option
+			if in.HasE {
+				opts = append(opts, cache.WithExpire(time.Duration(in.E)*time.Second))
+			}
+			if in.HasNF {
+				opts = append(opts, cache.WithNotFoundExpire(time.Duration(in.NF)*time.Second))
+			}
+			if !in.HasE || !in.HasNF {
+				r.classes["default-expiry-option-omitted"] = true
+				if ii > 0 {
+					r.classes["defaults-after-earlier-instance-with-options"] = true
+				}
+			}
+			if n == 1 && c.Ctor == "node" {
+				r.ccs = append(r.ccs, sqlc.NewNodeConn(nil, redis.New(r.srvs[0].M.Addr()), opts...))
+			} else {
+				r.ccs = append(r.ccs, sqlc.NewConn(nil, conf, opts...))
+			}
+		}
+		if len(c.Insts) > 1 {
+			r.classes[fmt.Sprintf("instances-%d", len(c.Insts))] = true
+		}
+		if n == 1 {
 			r.classes["single-node"] = true
 		} else {
-			var conf cache.Config
-			for i, w := range c.Weights {
-				conf = append(conf, cache.NodeConfig{Config: redis.Config{Host: r.srvs[i].M.Addr(), Type: redis.NodeType}, Weight: w})
-			}
-			r.cc = sqlc.NewConn(nil, conf, opts...)
-			if n == 1 {
-				r.classes["single-node"] = true
-			} else {
-				r.classes[fmt.Sprintf("cluster-%d", n)] = true
-				if cache.C06RandomPorts {
-					r.classes["cluster-on-random-ports"] = true
-				}
+			r.classes[fmt.Sprintf("cluster-%d", n)] = true
+			if cache.C06RandomPorts {
+				r.classes["cluster-on-random-ports"] = true
 			}
 		}
 		for i, o := range c.Ops {
 			what := fmt.Sprintf("op %d %s", i, opString(o))
 			r.opStart = cache.C06RealNow()
+			r.cur = 0
+			if o.In > 0 {
+				r.cur = o.In % len(r.ccs)
+			}
 			if o.K != "adv" && o.K != "fault" {
 				// an operation issues at most 2 failing commands per node
 				r.budget(func(int) int { return 2 })
@@ -1031,11 +1141,13 @@ func c06HistInterp(t *testing.T, c hCase) (v kit.Verdict) {
 		r.dirty = map[string]bool{}
 		for id := 0; id < c06NIDs && r.fail == ""; id++ {
 			r.opStart = cache.C06RealNow()
+			r.cur = id % len(r.ccs)
 			r.doRead(fmt.Sprintf("epilogue read %d", id), id)
 			r.stall()
 		}
 		for idx := 0; idx < c06NIdx && r.fail == ""; idx++ {
 			r.opStart = cache.C06RealNow()
+			r.cur = idx % len(r.ccs)
 			r.doReadIndex(fmt.Sprintf("epilogue readidx %d", idx), idx)
 			r.stall()
 		}
@@ -1076,8 +1188,6 @@ func opString(o hOp) string {
 
 func c06HistGen(rt *rapid.T) hCase {
 	c := hCase{
-		Expire: rapid.IntRange(5, 120).Draw(rt, "expire"),
-		NFExp:  rapid.IntRange(2, 40).Draw(rt, "nfexpire"),
 		Salt:   rapid.IntRange(0, 999).Draw(rt, "salt"),
 		OffMs:  rapid.IntRange(1, 998).Draw(rt, "off"),
 		Ctor:   rapid.SampledFrom([]string{"node", "conf"}).Draw(rt, "ctor"),
@@ -1096,13 +1206,31 @@ func c06HistGen(rt *rapid.T) hCase {
 			1234567890123456789, 1234567890123456768, math.MaxInt64, math.MaxInt64 - 1, math.MinInt64, 1<<62 + 1}
 		c.PKs = rapid.SliceOfNDistinct(rapid.OneOf(rapid.SampledFrom(pool), rapid.SampledFrom(pool), rapid.Int64()), c06NIDs, c06NIDs, rapid.ID[int64]).Draw(rt, "pk")
 	}
+	// 1..3 connections created one after the other, each option passed or omitted
+	ni := rapid.SampledFrom([]int{1, 1, 2, 2, 3}).Draw(rt, "instances")
+	for i := 0; i < ni; i++ {
+		in := hInst{HasE: rapid.IntRange(0, 3).Draw(rt, "hasexpire") != 0, HasNF: rapid.IntRange(0, 3).Draw(rt, "hasnfexpire") != 0}
+		if in.HasE {
+			in.E = rapid.IntRange(5, 120).Draw(rt, "expire")
+		}
+		if in.HasNF {
+			in.NF = rapid.IntRange(2, 40).Draw(rt, "nfexpire")
+		}
+		c.Insts = append(c.Insts, in)
+	}
 	nn := rapid.SampledFrom([]int{1, 1, 2, 3}).Draw(rt, "nodes")
 	for i := 0; i < nn; i++ {
 		c.Weights = append(c.Weights, rapid.SampledFrom([]int{10, 50, 100}).Draw(rt, "weight"))
 	}
-	lon, hin := ttlBounds(c.NFExp)
-	loe, hie := ttlBounds(c.Expire)
-	advs := []int{1, 1, 1, 2, 4, 5, 6, lon - 1, lon, hin, hin + 1, loe - 1, loe, hie, hie + 1, hie + 5, hie + 6, 60, 66, 300, 3600}
+	advs := []int{1, 1, 1, 2, 4, 5, 6, 60, 66, 300, 3600}
+	for _, in := range c.Insts {
+		lon, hin := ttlBounds(in.nfExpire())
+		advs = append(advs, lon-1, lon, hin, hin+1)
+		if in.HasE {
+			loe, hie := ttlBounds(in.E)
+			advs = append(advs, loe-1, loe, hie, hie+1, hie+5, hie+6)
+		}
+	}
 	rows := map[int]int{} // id -> idx, to construct writes that respect the unique index
 	freeIdx := func(except int) []int {
 		var f []int
@@ -1150,6 +1278,9 @@ func c06HistGen(rt *rapid.T) hCase {
 			k = "write"
 		}
 		o := hOp{K: k}
+		if ni > 1 {
+			o.In = rapid.IntRange(0, ni-1).Draw(rt, "instance")
+		}
 		switch k {
 		case "read":
 			o.ID = pickID()
@@ -1212,6 +1343,7 @@ func c06HistGen(rt *rapid.T) hCase {
 			o.Idx = pickIdx()
 			o.ViaIdx = rapid.IntRange(0, 2).Draw(rt, "viaidx") == 0
 			o.Lat = rapid.IntRange(1, 400).Draw(rt, "lat")
+			o.GF = rapid.IntRange(0, 3).Draw(rt, "getfault") == 0
 			nr := rapid.IntRange(2, 6).Draw(rt, "readers")
 			for j := 0; j < nr; j++ {
 				o.Offs = append(o.Offs, rapid.IntRange(0, 450).Draw(rt, "offs"))
